@@ -604,8 +604,12 @@ class Interpreter:
                 last_before_lca = state
 
             # Take all the descendants of this state and list the ones that are active
-            # Mind the reversed order!
-            for descendant in self._statechart.descendants_for(last_before_lca)[::-1]:
+            # Deepest states first, ties are broken using the lexicographic order on the names
+            # (so that the order does not depend on the order in which states are declared)
+            descendants = sorted(
+                self._statechart.descendants_for(last_before_lca),
+                key=lambda s: (-self._statechart.depth_for(s), s))
+            for descendant in descendants:
                 # Only leave states that are currently active
                 if descendant in self._configuration:
                     exited_states.append(descendant)
